@@ -3,6 +3,12 @@
 import json, os, glob, re
 HERE = os.path.dirname(os.path.dirname(os.path.abspath(__file__)))
 matrix = json.load(open(HERE + "/seeded/matrix.json")) if os.path.exists(HERE + "/seeded/matrix.json") else {}
+# the first 36 changes were also run against ALL eighteen checks (early in the build, with the checks of that time): kept for the cross-property columns
+if os.path.exists(HERE + "/seeded/matrix-wave1-all.json"):
+    for i, v in json.load(open(HERE + "/seeded/matrix-wave1-all.json")).items():
+        for p, r in v.items():
+            if p != i.split("-")[0] and isinstance(r, dict):
+                matrix.setdefault(i, {}).setdefault(p, dict(r, early_all_checks_run=True))
 rows = []
 for d in sorted(glob.glob(HERE + "/seeded/*/")):
     i = os.path.basename(d.rstrip("/"))
@@ -26,7 +32,7 @@ for d in sorted(glob.glob(HERE + "/seeded/*/")):
                                 "command": "tools/seed_confirm.sh %s <dir> <n> %s" % (c["property"], i)},
             "checks_run_against_it": ran, "caught_by": caught_by,
             "first_report": (det.get(c["property"]) or {}).get("first") if isinstance(det.get(c["property"]), dict) else None,
-            "how_checks_were_run": "tools/seed_matrix.py: git apply patch.diff on a copy of the repository (PYP0F_REPO), ./check <prop> --tier quick, git checkout -- ."}
+            "how_checks_were_run": "tools/seed_matrix.py: git apply patch.diff on a scratch worktree of /repo HEAD (PYP0F_REPO), ./check <prop> --tier quick, git checkout -- . (own property's check with the final machinery; for the first 36 changes also every other check, early in the build)"}
     json.dump(meta, open(d + "meta.json", "w"), indent=1)
     rows.append((i, c["property"], c["confirmed"], caught_by, title[:90]))
 table = ["| change | breaks | confirmed | caught by (quick tier) | what it is |", "|---|---|---|---|---|"]
